@@ -461,6 +461,17 @@ class ExprMixin:
         if kind == 'static':
             return self.ok(st, FuncV(res[1]))
         if kind == 'classm':
+            if v.cls is not None and not v.exact:
+                # bind the classmethod to the concrete dynamic class: case split over the (few) candidate classes
+                cands = [c for c in self.index.subclasses(v.cls) if c.lookup(name) is res[1]]
+                if len(cands) <= 12:
+                    outs = []
+                    clt = z3.Select(st.CL, r_of(v.term))
+                    for c in cands:
+                        s2, _ = self.fork(st, clt == I(c.id))
+                        if s2 is not None:
+                            outs.append(Out('ok', s2, BoundV(FuncV(res[1]), ClassV(c))))
+                    return outs
             return self.ok(st, BoundV(FuncV(res[1]), self.class_of_value(st, v)))
         if kind == 'enumattr':
             raise Unsupported(f'enum attribute {name}', node)
@@ -520,6 +531,8 @@ class ExprMixin:
                 sv = SV(val, kinds[0])
             elif ci is not None:
                 sv = SV(val, None, ci)
+            if ci is not None:
+                self.assume_class_invariants(st, sv)
         return sv
 
     def hint_str(self, hint):
